@@ -55,6 +55,7 @@ class Ctx:
         self.counters = {}
         self.refusals = {}
         self.nontrivial = set()
+        self._marked = set()
         self.samples = []
         self.cases = 0
         self.known = []           # known-finding entries for this property
@@ -105,6 +106,9 @@ class Ctx:
         """ The current case is non-trivial; `key` identifies it. """
         if not isinstance(key, str):
             key = repr(key)
+        if self.index in self._marked:
+            return            # one case counts once, whatever it marks
+        self._marked.add(self.index)
         self.nontrivial.add(hashlib.md5(key.encode()).hexdigest()[:16])
 
     def sample(self, **desc):
